@@ -239,6 +239,8 @@ def source_level_monotonicity(ctx: Ctx, n: int):
 
 
 def run(ctx: Ctx):
+    from harness.props import c01 as _c01
+    _c01.interpreter_flags(ctx, 8 if ctx.quick else 80)      # the laws are laws of ONE evaluator: it must be the same with and without -O
     source_level_monotonicity(ctx, 120 if ctx.quick else 3000)
     n_graphs = 2000 if ctx.quick else 40000
     per = 50
